@@ -1,10 +1,15 @@
 /-
-Model of `suggest/maven.go` `suggestMavenVersion` (after fix 3e9bb9ee) and the filter `Suggest`
-applies to its answer (C11).  Table-driven: for the package's versions in the order `cl.Versions`
-returns them the harness gives the rank under `mavenutil.CompareVersions(req.VersionKey, ·, ·)` (equal
-ranks = compare equal), the `Difference` to `current` and whether the constraint matches.
-`current` is the parsed requirement (simple constraint) or the greatest matching version (range), or
-`none` (a range no known version satisfies).
+Model of `suggest/maven.go` `suggestMavenVersion` (after fixes 3e9bb9ee and 63128997) and the filter
+`Suggest` applies to its answer (C11).  Table-driven: for the package's versions in the order
+`cl.Versions` returns them the harness gives the rank under
+`mavenutil.CompareVersions(req.VersionKey, ·, ·)` (equal ranks = compare equal), the `Difference` to
+`current` and whether the constraint matches.  `current` is the parsed requirement (simple constraint)
+or the greatest matching version (range), or `none` (a range no known version satisfies).
+
+Every value that can be nil in the Go code is an `Option` here and is matched before use: after the
+early return `if current == nil`, `current` is a plain value in the loop (`v.Difference(current)`,
+`CompareVersions(…, v, current)`), `CompareVersions` itself accepts a nil `newReq`, and
+`newReq.String()` comes after the nil check.  The model therefore has no panic outcome.
 -/
 import Scalibr.Model.Upgrade
 namespace Scalibr.Suggest
@@ -22,25 +27,25 @@ def ltOpt (v : V) : Option V → Bool
   | none => false
   | some b => v.rank < b.rank
 
-/-- body of `for _, v := range semvers` -/
-def step (level : Nat) (cur : Option V) (newReq : Option V) (v : V) : Option V :=
+/-- body of `for _, v := range semvers`; `cur` is the non-nil `current` -/
+def step (level : Nat) (cur : V) (newReq : Option V) (v : V) : Option V :=
   if ltOpt v newReq then newReq
   else if !allows level v.diff then newReq
-  else if ltOpt v cur then newReq                      -- `current != nil && CompareVersions(v, current) < 0`
+  else if v.rank ≤ cur.rank then newReq                 -- `CompareVersions(v, current) <= 0`
   else some v
 
 inductive Res
   | keep                 -- the requirement is returned unchanged
   | update (v : V)
-  | panic                -- nil dereference in `v.Difference(current)`
 deriving Repr, DecidableEq
 
 def suggest (level : Nat) (simple : Bool) (cur : Option V) (vs : List V) : Res :=
-  -- the first iteration always reaches `v.Difference(current)` (newReq is nil)
-  if cur.isNone && !vs.isEmpty then .panic else
-  match vs.foldl (step level cur) none with
-  | none => .keep
-  | some v => if simple || !v.mat then .update v else .keep
+  match cur with
+  | none => .keep                                        -- `if current == nil { return req, nil }`
+  | some c =>
+    match vs.foldl (step level c) none with
+    | none => .keep
+    | some v => if simple || !v.mat then .update v else .keep
 
 /-- the answer as its callers see it: a returned requirement spelled like the old one is no change
 (`curId` = identity of the requirement string when it is a plain version) -/
